@@ -1,0 +1,526 @@
+//go:build verif
+// +build verif
+
+package raft
+
+import (
+	"bytes"
+	"hash/fnv"
+	"io"
+	"net"
+	"path/filepath"
+	"time"
+)
+
+// Verification hooks, compiled only with the "verif" build tag.
+//
+// They export, to an external harness, observations of a node made on the
+// goroutine that owns the observed state (VerifEmit), named points between
+// critical sections at which the harness may delay, order or "crash" the
+// node (VerifPoint), and wrappers around the unexported codecs.
+
+// VerifSt is a copy of the raft-goroutine owned state of a node.
+type VerifSt struct {
+	Term     uint64 `json:"t"`
+	Vote     uint64 `json:"v"`
+	State    string `json:"s"`
+	Leader   uint64 `json:"l"`
+	Commit   uint64 `json:"c"`
+	Last     uint64 `json:"li"`
+	LastTerm uint64 `json:"lt"`
+	Prev     uint64 `json:"p"`  // log.PrevIndex
+	Snap     uint64 `json:"si"` // snapshot index
+	SnapTerm uint64 `json:"st"`
+	CfgL     uint64 `json:"cl"` // latest config index
+	CfgC     uint64 `json:"cc"` // committed config index
+	LdrStart uint64 `json:"ls,omitempty"`
+	Xfer     bool   `json:"x,omitempty"` // leadership transfer in progress
+	SnapBusy bool   `json:"sb,omitempty"`
+}
+
+// VerifEntry describes one log entry.
+type VerifEntry struct {
+	Index uint64 `json:"i"`
+	Term  uint64 `json:"t"`
+	Typ   uint8  `json:"y"`
+	Hash  uint64 `json:"h"`           // fnv64a of data
+	Data  []byte `json:"d,omitempty"` // only where requested
+}
+
+// VerifNode is one member of a configuration.
+type VerifNode struct {
+	ID     uint64 `json:"id"`
+	Addr   string `json:"a,omitempty"`
+	Voter  bool   `json:"v,omitempty"`
+	Action uint8  `json:"ac,omitempty"`
+}
+
+// VerifCfg is a configuration.
+type VerifCfg struct {
+	Index uint64      `json:"i"`
+	Term  uint64      `json:"t"`
+	Nodes []VerifNode `json:"n"`
+}
+
+// VerifEv is one observation.
+type VerifEv struct {
+	K      string      `json:"k"`
+	St     *VerifSt    `json:"st,omitempty"`
+	E      *VerifEntry `json:"e,omitempty"`
+	Cfg    *VerifCfg   `json:"cfg,omitempty"`
+	CfgC   *VerifCfg   `json:"cfgc,omitempty"`
+	Idx    uint64      `json:"idx,omitempty"`
+	Term   uint64      `json:"term,omitempty"`
+	Vote   uint64      `json:"vote,omitempty"`
+	ID     uint64      `json:"id,omitempty"`  // other node concerned
+	Act    string      `json:"act,omitempty"` // config action
+	Match  uint64      `json:"match,omitempty"`
+	Round  uint64      `json:"round,omitempty"`
+	RLast  uint64      `json:"rlast,omitempty"`
+	Reason string      `json:"why,omitempty"`
+	On     bool        `json:"on,omitempty"`
+	Err    string      `json:"err,omitempty"`
+
+	// rpc
+	RPC      string `json:"rpc,omitempty"`
+	Src      uint64 `json:"src,omitempty"`
+	ReqTerm  uint64 `json:"rt,omitempty"`
+	Res      string `json:"res,omitempty"`
+	RespTerm uint64 `json:"pt,omitempty"`
+	A        uint64 `json:"a,omitempty"` // vote: lastLogIndex; append: prevLogIndex; snap: lastIndex; identity: cid
+	B        uint64 `json:"b,omitempty"` // vote: lastLogTerm;  append: prevLogTerm;  snap: lastTerm;  identity: nid
+	C        uint64 `json:"c,omitempty"` // append: ldrCommitIndex; snap: size
+	N        uint64 `json:"n,omitempty"` // append: number of entries announced
+	Xfer     bool   `json:"xf,omitempty"`
+	RespLast uint64 `json:"pl,omitempty"` // append: lastLogIndex in reply
+
+	Conn net.Conn `json:"-"` // connection the request came on
+}
+
+// VerifEmit, if set, receives every observation. dir is the storage
+// directory of the node.
+var VerifEmit func(dir string, ev *VerifEv)
+
+// VerifPoint, if set, is called at named points between critical
+// sections. dir is the storage directory of the node.
+var VerifPoint func(dir, name string)
+
+func verifDirSnaps(s *snapshots) string { return filepath.Dir(s.dir) }
+
+func verifHash(b []byte) uint64 {
+	h := fnv.New64a()
+	_, _ = h.Write(b)
+	return h.Sum64()
+}
+
+func verifEntry(e *entry, withData bool) *VerifEntry {
+	ve := &VerifEntry{Index: e.index, Term: e.term, Typ: uint8(e.typ), Hash: verifHash(e.data)}
+	if withData {
+		ve.Data = append([]byte(nil), e.data...)
+	}
+	return ve
+}
+
+func verifCfg(c Config) *VerifCfg {
+	vc := &VerifCfg{Index: c.Index, Term: c.Term}
+	for _, n := range c.Nodes {
+		vc.Nodes = append(vc.Nodes, VerifNode{ID: n.ID, Addr: n.Addr, Voter: n.Voter, Action: uint8(n.Action)})
+	}
+	// deterministic order
+	for i := 1; i < len(vc.Nodes); i++ {
+		for j := i; j > 0 && vc.Nodes[j-1].ID > vc.Nodes[j].ID; j-- {
+			vc.Nodes[j-1], vc.Nodes[j] = vc.Nodes[j], vc.Nodes[j-1]
+		}
+	}
+	return vc
+}
+
+func verifState(r *Raft) *VerifSt {
+	si, st := r.snaps.latest()
+	s := &VerifSt{
+		Term: r.term, Vote: r.votedFor, State: string(rune(r.state)), Leader: r.leader,
+		Commit: r.commitIndex, Last: r.lastLogIndex, LastTerm: r.lastLogTerm,
+		Prev: r.log.PrevIndex(), Snap: si, SnapTerm: st,
+		CfgL: r.configs.Latest.Index, CfgC: r.configs.Committed.Index,
+		SnapBusy: r.snapTakenCh != nil,
+	}
+	if r.state == Leader && r.ldr != nil {
+		s.LdrStart = r.ldr.startIndex
+		s.Xfer = r.ldr.transfer.inProgress()
+	}
+	return s
+}
+
+func verifStorageState(s *storage) *VerifSt {
+	si, st := s.snaps.latest()
+	return &VerifSt{
+		Term: s.term, Vote: s.votedFor, Last: s.lastLogIndex, LastTerm: s.lastLogTerm,
+		Prev: s.log.PrevIndex(), Snap: si, SnapTerm: st,
+		CfgL: s.configs.Latest.Index, CfgC: s.configs.Committed.Index,
+	}
+}
+
+func verifEmitR(r *Raft, ev *VerifEv) {
+	if VerifEmit != nil {
+		VerifEmit(verifDirSnaps(r.snaps), ev)
+	}
+}
+
+// the *Raft owning a storage, needed because storage methods do not see it
+var verifOwner = map[*storage]*Raft{}
+var verifOwnerMu = make(chan struct{}, 1)
+
+func verifOwnerOf(s *storage) *Raft {
+	verifOwnerMu <- struct{}{}
+	r := verifOwner[s]
+	<-verifOwnerMu
+	return r
+}
+
+// VerifRegister must be called right after New; it lets storage level
+// observations carry the node state. VerifUnregister drops the reference.
+func VerifRegister(r *Raft) {
+	verifOwnerMu <- struct{}{}
+	verifOwner[r.storage] = r
+	<-verifOwnerMu
+}
+
+// VerifUnregister drops the reference kept by VerifRegister.
+func VerifUnregister(r *Raft) {
+	verifOwnerMu <- struct{}{}
+	delete(verifOwner, r.storage)
+	<-verifOwnerMu
+}
+
+func verifEmitS(s *storage, ev *VerifEv) {
+	if VerifEmit == nil {
+		return
+	}
+	if r := verifOwnerOf(s); r != nil && ev.St == nil {
+		ev.St = verifState(r)
+	} else if ev.St == nil {
+		ev.St = verifStorageState(s)
+	}
+	VerifEmit(verifDirSnaps(s.snaps), ev)
+}
+
+// hooks -------------------------------------------------------
+
+func verifStep(r *Raft) {
+	if VerifEmit != nil {
+		verifEmitR(r, &VerifEv{K: "step", St: verifState(r)})
+	}
+}
+
+func verifCommit(r *Raft) {
+	if VerifEmit != nil {
+		verifEmitR(r, &VerifEv{K: "commit", Idx: r.commitIndex, St: verifState(r)})
+	}
+}
+
+func verifAppend(s *storage, e *entry) {
+	if VerifEmit != nil {
+		ev := &VerifEv{K: "append", E: verifEntry(e, false)}
+		if e.typ == entryConfig {
+			c := Config{}
+			if err := c.decode(e); err == nil {
+				ev.Cfg = verifCfg(c)
+			}
+		}
+		verifEmitS(s, ev)
+	}
+	verifPointS(s, "append")
+}
+
+func verifRemoveGTE(s *storage, index uint64) {
+	if VerifEmit != nil {
+		verifEmitS(s, &VerifEv{K: "trunc", Idx: index})
+	}
+	verifPointS(s, "removeGTE")
+}
+
+func verifClearLog(s *storage) {
+	if VerifEmit != nil {
+		verifEmitS(s, &VerifEv{K: "clear", Idx: s.lastLogIndex, Term: s.lastLogTerm})
+	}
+	verifPointS(s, "clearLog")
+}
+
+func verifCompact(r *Raft) {
+	if VerifEmit != nil {
+		verifEmitR(r, &VerifEv{K: "compact", Idx: r.log.PrevIndex(), St: verifState(r)})
+	}
+	verifPointR(r, "compact")
+}
+
+func verifResultName(res rpcResult) string {
+	switch res {
+	case success:
+		return "success"
+	case identityMismatch:
+		return "identityMismatch"
+	case staleTerm:
+		return "staleTerm"
+	case alreadyVoted:
+		return "alreadyVoted"
+	case leaderKnown:
+		return "leaderKnown"
+	case logNotUptodate:
+		return "logNotUptodate"
+	case prevEntryNotFound:
+		return "prevEntryNotFound"
+	case prevTermMismatch:
+		return "prevTermMismatch"
+	case nonVoter:
+		return "nonVoter"
+	case readErr:
+		return "readErr"
+	case unexpectedErr:
+		return "unexpectedErr"
+	}
+	return "?"
+}
+
+func verifRPC(r *Raft, rpc *rpc) {
+	if VerifEmit != nil {
+		ev := &VerifEv{K: "rpc", St: verifState(r), Src: rpc.req.from(), ReqTerm: rpc.req.getTerm()}
+		if rpc.conn != nil {
+			ev.Conn = rpc.conn.rwc
+		}
+		if rpc.resp != nil {
+			ev.Res = verifResultName(rpc.resp.getResult())
+			ev.RespTerm = rpc.resp.getTerm()
+			if rpc.resp.getErr() != nil {
+				ev.Err = rpc.resp.getErr().Error()
+			}
+		}
+		switch req := rpc.req.(type) {
+		case *identityReq:
+			ev.RPC, ev.A, ev.B = "identity", req.cid, req.nid
+		case *voteReq:
+			ev.RPC, ev.A, ev.B, ev.Xfer = "vote", req.lastLogIndex, req.lastLogTerm, req.transfer
+		case *appendReq:
+			ev.RPC, ev.A, ev.B, ev.C = "append", req.prevLogIndex, req.prevLogTerm, req.ldrCommitIndex
+			if resp, ok := rpc.resp.(*appendResp); ok {
+				ev.RespLast = resp.lastLogIndex
+			}
+		case *installSnapReq:
+			ev.RPC, ev.A, ev.B, ev.C = "installSnap", req.lastIndex, req.lastTerm, uint64(req.size)
+			ev.Cfg = verifCfg(req.lastConfig)
+		case *timeoutNowReq:
+			ev.RPC = "timeoutNow"
+		}
+		verifEmitR(r, ev)
+	}
+	verifPointR(r, "rpc.reply")
+}
+
+func verifPersisted(s *storage, term, vote uint64) {
+	if VerifEmit != nil {
+		verifEmitS(s, &VerifEv{K: "persist", Term: term, Vote: vote})
+	}
+	verifPointS(s, "vote.persisted")
+}
+
+func verifPointR(r *Raft, name string) {
+	if VerifPoint != nil {
+		VerifPoint(verifDirSnaps(r.snaps), name)
+	}
+}
+
+func verifPointS(s *storage, name string) {
+	if VerifPoint != nil {
+		VerifPoint(verifDirSnaps(s.snaps), name)
+	}
+}
+
+func verifPointSnaps(s *snapshots, name string) {
+	if VerifPoint != nil {
+		VerifPoint(verifDirSnaps(s), name)
+	}
+}
+
+func verifPointFSM(fsm *stateMachine, name string) {
+	if VerifPoint != nil {
+		VerifPoint(verifDirSnaps(fsm.snaps), name)
+	}
+}
+
+func verifPointRepl(repl *replication, name string) {
+	if VerifPoint != nil {
+		VerifPoint(verifDirSnaps(repl.snaps), name)
+	}
+}
+
+func verifServing(r *Raft, on bool) {
+	if VerifEmit != nil {
+		ev := &VerifEv{K: "serving", On: on}
+		if !on {
+			ev.K = "served"
+		}
+		VerifEmit(verifDirSnaps(r.snaps), ev)
+	}
+}
+
+func verifTransferTarget(l *leader, target uint64) {
+	if VerifEmit != nil {
+		ev := &VerifEv{K: "xfer-target", ID: target, St: verifState(l.Raft), Cfg: verifCfg(l.configs.Latest)}
+		if repl := l.repls[target]; repl != nil {
+			ev.Match = repl.status.matchIndex
+		}
+		verifEmitR(l.Raft, ev)
+	}
+}
+
+func verifSnapTaken(r *Raft, t *snapTaken) {
+	if VerifEmit != nil {
+		ev := &VerifEv{K: "snap-taken", Idx: t.meta.index, Term: t.meta.term, St: verifState(r)}
+		if t.err != nil {
+			ev.Err = t.err.Error()
+		} else {
+			ev.Cfg = verifCfg(t.meta.config)
+		}
+		verifEmitR(r, ev)
+	}
+}
+
+func verifFSMApplied(fsm *stateMachine, e *entry) {
+	if VerifEmit != nil {
+		VerifEmit(verifDirSnaps(fsm.snaps), &VerifEv{K: "applied", E: &VerifEntry{Index: e.index, Term: e.term, Typ: uint8(e.typ), Hash: verifHash(e.data)}})
+	}
+}
+
+func verifFSMRestored(fsm *stateMachine, m snapshotMeta) {
+	if VerifEmit != nil {
+		VerifEmit(verifDirSnaps(fsm.snaps), &VerifEv{K: "restored", Idx: m.index, Term: m.term, Cfg: verifCfg(m.config)})
+	}
+}
+
+func init() {
+	grantingVote = func(s *storage, term, candidate uint64) error {
+		verifPointS(s, "vote.before")
+		return nil
+	}
+	tracer.stateChanged = func(r *Raft) {
+		verifEmitR(r, &VerifEv{K: "state", St: verifState(r)})
+	}
+	tracer.leaderChanged = func(r *Raft) {
+		verifEmitR(r, &VerifEv{K: "leader", St: verifState(r)})
+	}
+	tracer.electionStarted = func(r *Raft) {
+		verifEmitR(r, &VerifEv{K: "election", St: verifState(r), Cfg: verifCfg(r.configs.Latest)})
+	}
+	tracer.electionAborted = func(r *Raft, reason string) {
+		verifEmitR(r, &VerifEv{K: "election-aborted", Reason: reason, St: verifState(r)})
+	}
+	tracer.commitReady = func(r *Raft) {
+		verifEmitR(r, &VerifEv{K: "commit-ready", St: verifState(r)})
+	}
+	tracer.configChanged = func(r *Raft) {
+		verifEmitR(r, &VerifEv{K: "cfg-changed", St: verifState(r), Cfg: verifCfg(r.configs.Latest), CfgC: verifCfg(r.configs.Committed)})
+	}
+	tracer.configCommitted = func(r *Raft) {
+		verifEmitR(r, &VerifEv{K: "cfg-committed", St: verifState(r), Cfg: verifCfg(r.configs.Latest)})
+	}
+	tracer.configReverted = func(r *Raft) {
+		verifEmitR(r, &VerifEv{K: "cfg-reverted", St: verifState(r), Cfg: verifCfg(r.configs.Latest)})
+	}
+	tracer.roundCompleted = func(r *Raft, id uint64, rnd round) {
+		ev := &VerifEv{K: "round", ID: id, Round: rnd.Ordinal, RLast: rnd.LastIndex, St: verifState(r)}
+		if repl := r.ldr.repls[id]; repl != nil {
+			ev.Match = repl.status.matchIndex
+		}
+		verifEmitR(r, ev)
+	}
+	tracer.logCompacted = func(r *Raft) {}
+	tracer.configActionStarted = func(r *Raft, id uint64, action Action) {
+		ev := &VerifEv{K: "cfg-action", ID: id, Act: action.String(), St: verifState(r), Cfg: verifCfg(r.configs.Latest)}
+		if r.ldr != nil {
+			if repl := r.ldr.repls[id]; repl != nil {
+				ev.Match = repl.status.matchIndex
+				if repl.status.round != nil {
+					ev.Round, ev.RLast = repl.status.round.Ordinal, repl.status.round.LastIndex
+				}
+			}
+		}
+		verifEmitR(r, ev)
+	}
+	tracer.unreachable = func(r *Raft, id uint64, since time.Time, err error) {
+		ev := &VerifEv{K: "unreachable", ID: id, On: !since.IsZero()}
+		if err != nil {
+			ev.Err = err.Error()
+		}
+		verifEmitR(r, ev)
+	}
+	tracer.quorumUnreachable = func(r *Raft, since time.Time) {
+		verifEmitR(r, &VerifEv{K: "quorum-unreachable", On: !since.IsZero(), St: verifState(r)})
+	}
+	tracer.shuttingDown = func(r *Raft, reason error) {
+		// may run on any goroutine: no node state here
+		ev := &VerifEv{K: "shutting-down"}
+		if reason != nil {
+			ev.Reason = reason.Error()
+		}
+		if VerifEmit != nil {
+			VerifEmit(verifDirSnaps(r.snaps), ev)
+		}
+	}
+}
+
+// access for the harness ---------------------------------------------
+
+// VerifSetDial replaces the dialer. Must be called before Serve.
+func (r *Raft) VerifSetDial(fn func(network, address string, timeout time.Duration) (net.Conn, error)) {
+	r.dialFn = fn
+}
+
+// VerifSetQuorumWait sets the otherwise unexported quorumWait.
+func (r *Raft) VerifSetQuorumWait(d time.Duration) { r.quorumWait = d }
+
+// VerifInspect runs fn on the raft goroutine of a serving node.
+func (r *Raft) VerifInspect(fn func()) error {
+	return r.inspect(func(*Raft) { fn() })
+}
+
+// VerifState returns the node state. Only valid on the raft goroutine
+// (inside VerifInspect) or before Serve.
+func (r *Raft) VerifState() VerifSt { return *verifState(r) }
+
+// VerifConfigs returns latest and committed configuration. Same rule as VerifState.
+func (r *Raft) VerifConfigs() (latest, committed VerifCfg) {
+	return *verifCfg(r.configs.Latest), *verifCfg(r.configs.Committed)
+}
+
+// VerifReadLog returns the entries the node's log holds. Same rule as VerifState.
+func (r *Raft) VerifReadLog(withData bool) (prev uint64, entries []VerifEntry, err error) {
+	prev = r.log.PrevIndex()
+	for i := prev + 1; i <= r.log.LastIndex(); i++ {
+		b, err := r.log.Get(i)
+		if err != nil {
+			return prev, entries, err
+		}
+		e := &entry{}
+		if err := e.decode(bytes.NewReader(b)); err != nil {
+			return prev, entries, err
+		}
+		entries = append(entries, *verifEntry(e, withData))
+	}
+	return prev, entries, nil
+}
+
+// VerifStorageDir returns the storage directory.
+func (r *Raft) VerifStorageDir() string { return verifDirSnaps(r.snaps) }
+
+// VerifNewClient is NewClient with a custom dialer.
+func VerifNewClient(addr string, dial func(network, address string, timeout time.Duration) (net.Conn, error)) *Client {
+	return &Client{addr, dial}
+}
+
+// VerifSnapMeta decodes a snapshot meta file.
+func VerifSnapMeta(r io.Reader) (index, term uint64, cfg VerifCfg, size int64, err error) {
+	m := snapshotMeta{}
+	if err = m.decode(r); err != nil {
+		return
+	}
+	return m.index, m.term, *verifCfg(m.config), m.size, nil
+}
